@@ -657,7 +657,9 @@ class CliffordTableau(StabilizerState):
     def measure(
         self, axes: Sequence[int], seed: cirq.RANDOM_STATE_OR_SEED_LIKE = None
     ) -> list[int]:
-        return [self._measure(axis, random_state.parse_random_state(seed)) for axis in axes]
+        # One random source for all axes: an integer seed must not be re-seeded for every axis.
+        prng = random_state.parse_random_state(seed)
+        return [self._measure(axis, prng) for axis in axes]
 
     @cached_method
     def __hash__(self) -> int:
